@@ -958,6 +958,21 @@ func c09JudgeList(c *run.Ctx, dir string, exposure bool) ([]tuple, bool, int, ma
 				break
 			}
 		}
+		// the exposure sections repeat, for every exposed peer and direction, the peer's connections with address ranges
+		// (documented layout of the exposure report); dot encodes them in the base relation only
+		wantIP := map[string]int{}
+		for i := range api.Exposed {
+			ep := &api.Exposed[i]
+			for _, e := range api.Entries {
+				if e.Src == ep.Peer && e.DstIP {
+					wantIP[tuple{Section: "egress", Src: e.Src, Dst: e.Dst, Conn: canonConn(e.Conn, nil)}.key()]++
+				}
+				if e.Dst == ep.Peer && e.SrcIP {
+					wantIP[tuple{Section: "ingress", Src: e.Src, Dst: e.Dst, Conn: canonConn(e.Conn, nil)}.key()]++
+				}
+			}
+		}
+		compareSets(r, "address lines of the exposure sections", wantIP, tupleSet(parsed["txt"], isExpIP), "api", "txt", "list-exposure-ip")
 		// address lines in the exposure sections must be lines of the base relation
 		for _, t := range parsed["txt"] {
 			if isExpIP(t) {
